@@ -2616,6 +2616,9 @@ impl CommandParser {
             .map_err(|_| FerrousError::Command(CommandError::InvalidIntegerValue))?;
         let with_scores = frames.len() == 5 && 
             Self::extract_string(&frames[4])?.to_uppercase() == "WITHSCORES";
+        if frames.len() == 5 && !with_scores {
+            return Err(FerrousError::Command(CommandError::SyntaxError("only WITHSCORES may follow the range".to_string())));
+        }
         Ok(SortedSetCommand::ZRange {
             key: Self::extract_bytes(&frames[1])?,
             start,
@@ -2634,6 +2637,9 @@ impl CommandParser {
             .map_err(|_| FerrousError::Command(CommandError::InvalidIntegerValue))?;
         let with_scores = frames.len() == 5 && 
             Self::extract_string(&frames[4])?.to_uppercase() == "WITHSCORES";
+        if frames.len() == 5 && !with_scores {
+            return Err(FerrousError::Command(CommandError::SyntaxError("only WITHSCORES may follow the range".to_string())));
+        }
         Ok(SortedSetCommand::ZRevRange {
             key: Self::extract_bytes(&frames[1])?,
             start,
@@ -2652,6 +2658,9 @@ impl CommandParser {
             .map_err(|_| FerrousError::Command(CommandError::InvalidFloatValue))?;
         let with_scores = frames.len() == 5 && 
             Self::extract_string(&frames[4])?.to_uppercase() == "WITHSCORES";
+        if frames.len() == 5 && !with_scores {
+            return Err(FerrousError::Command(CommandError::SyntaxError("only WITHSCORES may follow the range".to_string())));
+        }
         Ok(SortedSetCommand::ZRangeByScore {
             key: Self::extract_bytes(&frames[1])?,
             min_score,
@@ -2785,6 +2794,9 @@ impl CommandParser {
             .map_err(|_| FerrousError::Command(CommandError::InvalidFloatValue))?;
         let with_scores = frames.len() == 5 && 
             Self::extract_string(&frames[4])?.to_uppercase() == "WITHSCORES";
+        if frames.len() == 5 && !with_scores {
+            return Err(FerrousError::Command(CommandError::SyntaxError("only WITHSCORES may follow the range".to_string())));
+        }
         Ok(SortedSetCommand::ZRevRangeByScore {
             key: Self::extract_bytes(&frames[1])?,
             max_score,
